@@ -14,6 +14,8 @@ KIND_SHAPES = {
     "bounddim3": [[2, 3], [4], [2, 1, 2]],
     "clip33": [[a, b] for a in (1, 2, 3) for b in (1, 2, 3)],
     "boundsize6": [[2, 3], [3, 2], [1, 6], [6, 1], [2, 2], [1, 1]],
+    # a tuple of clipped extents whose bounds decrease (every view composes with it): an extent may exceed the bound of a later axis
+    "clip62t": [[a, b] for a in (1, 3, 4, 6) for b in (1, 2)],
 }
 RESTRICTED = {"clip33": {"flatten", "reshape"}}
 
